@@ -196,3 +196,50 @@ func TestHuntLoopWaitingToBeEnabled(t *testing.T) {
 		}
 	}
 }
+
+// TestHuntNeverStartingStepErrorPath (VERIF_HUNT=7): the only output refers to an error-path stage of a
+// step that never starts (its input needs a step that ends in its error output), while an unrelated step
+// never finishes. Writes the replay of the first hang to VERIF_HUNT_OUT.
+func TestHuntNeverStartingStepErrorPath(t *testing.T) {
+	if os.Getenv("VERIF_HUNT") != "7" {
+		t.Skip()
+	}
+	LoadSites(os.Getenv("VERIF_SITES"))
+	loadKnown(os.Getenv("VERIF_KNOWN"))
+	body := &ir.Program{Name: "body.yaml", Item: true, SrcPrefix: "body.yaml/", Subs: map[string]*ir.Program{}}
+	body.Steps = []*ir.Step{{ID: "b0", Kind: "plugin", In: []ir.Field{ir.F("a", ir.Ref("input", "v"))}}}
+	body.Outputs = []ir.Output{{ID: "success", E: ir.Obj(ir.F("r", ir.StepRef("b0", "outputs", "success", "a")))}}
+	for _, kind := range []string{"foreach", "plugin"} {
+		p := &ir.Program{Subs: map[string]*ir.Program{"body.yaml": body}}
+		a := &ir.Step{ID: "a", Kind: "plugin", In: []ir.Field{ir.F("a", ir.Lit(int64(1))), ir.F("mode", ir.Lit("err"))}}
+		var second *ir.Step
+		var out *ir.Expr
+		if kind == "foreach" {
+			second = &ir.Step{ID: "b", Kind: "foreach", Sub: "body.yaml", Items: ir.StepRef("a", "outputs", "success", "its")}
+			out = ir.StepRef("b", "failed", "error", "errors")
+		} else {
+			second = &ir.Step{ID: "b", Kind: "plugin", In: []ir.Field{ir.F("a", ir.StepRef("a", "outputs", "success", "a"))}}
+			out = ir.StepRef("b", "crashed", "error")
+		}
+		slow := &ir.Step{ID: "slow", Kind: "plugin", In: []ir.Field{ir.F("a", ir.Lit(int64(1))), ir.F("mode", ir.Lit("hang"))}}
+		p.Steps = []*ir.Step{a, second, slow}
+		p.Outputs = []ir.Output{{ID: "fallback", E: ir.Obj(ir.F("e", out))}}
+		c := &Case{Property: "C01", Profile: "hunt", Class: "S1", Program: p, Doc: ir.Doc{"n": int64(1), "tag": "t", "flag": false}}
+		c.Policy = simrt.PolicySpec{Kind: "fifo", Seed: 1}
+		r := RunCase(t, c, true)
+		fmt.Println(kind, "PREPARE:", r.PrepareErr, "OUTCOME:", r.Outcome)
+		v, err := NewView(c, r)
+		if err != nil {
+			continue
+		}
+		for _, x := range OracleTerminates("C01", v) {
+			fmt.Println("   VIOL", x.Rule, x.Shape, x.Parts, "known=", knownID(x))
+			if dir := os.Getenv("VERIF_HUNT_OUT"); dir != "" {
+				rf := &ReplayFile{Property: "C01", Rule: x.Rule, Shape: x.Shape, Message: x.Msg, Seed: uint64(len(kind)), Case: c, Result: r}
+				rf.YAML, rf.Files = p.YAML(), p.Files()
+				name, _ := writeReplay(dir, rf)
+				fmt.Println("   wrote", name)
+			}
+		}
+	}
+}
